@@ -7,6 +7,7 @@ from pta import paths as P
 from pta.absdom import truth_table
 from pta.check import Spec
 from pta.model import AnalysisError
+from pta.pat import find, has, th, tfind
 from pta.rules.common import short
 
 EDL = "pytato.transform.einsum_distributive_law"
@@ -137,9 +138,19 @@ def r_branch(c):
     OPS = {"ADD": ast.Add, "SUB": ast.Sub, "MULT": ast.Mult, "TRUEDIV": ast.Div,
            "FLOORDIV": ast.FloorDiv, "POWER": ast.Pow, "MOD": ast.Mod}
     handled = {}
+    hl = find(fd, "$hlo = index_lambda_to_high_level_op($e)")
+    if len(hl) != 1:
+        raise AnalysisError("anchor vanished: raised operation in map_index_lambda")
+    hlo = hl[0]["$hlo"]
+    ctxp = fd.args.args[2].arg
+    recs = {}
+    for i in ("1", "2"):
+        r = find(fd, f"$r = _verify_is_array($s.rec({hlo}.x{i}, {ctxp})) "
+                     f"if isinstance({hlo}.x{i}, Array) else {hlo}.x{i}")
+        recs[i] = r[0]["$r"] if len(r) == 1 else None
     for iff in ast.walk(fd):
         if isinstance(iff, ast.If) and isinstance(iff.test, ast.Compare) \
-                and ast.unparse(iff.test.left) == "hlo.binary_op" \
+                and ast.unparse(iff.test.left) == f"{hlo}.binary_op" \
                 and isinstance(iff.test.ops[0], ast.Eq):
             op = iff.test.comparators[0].attr
             rets = [r for s in iff.body for r in ast.walk(s) if isinstance(r, ast.Return)]
@@ -155,7 +166,7 @@ def r_branch(c):
                     and v.func.id == "cast":
                 v = v.args[1]
             if isinstance(v, ast.BinOp) and op in OPS and isinstance(v.op, OPS[op]) \
-                    and ast.unparse(v.left) == "rec_x1" and ast.unparse(v.right) == "rec_x2":
+                    and ast.unparse(v.left) == recs["1"] and ast.unparse(v.right) == recs["2"]:
                 ok = True
         c.check(ok and len(rets) == 1, "R06-BRANCH", "EinsumDistributiveLawMapper.map_index_lambda",
                 f"{op}:operator-and-operand-order", m.loc(m.module_of(iff), iff),
@@ -170,12 +181,7 @@ def r_branch(c):
                                "handled by a branch the predicate never admits"))
     # rec_x1 / rec_x2 come from hlo.x1 / hlo.x2 respectively
     for i in ("1", "2"):
-        ok = False
-        for st in ast.walk(fd):
-            if isinstance(st, ast.Assign) and ast.unparse(st.targets[0]) == f"rec_x{i}":
-                src = ast.unparse(st.value)
-                ok = f"self.rec(hlo.x{i}, ctx)" in src and f"else hlo.x{i}" in src \
-                    and f"hlo.x{3 - int(i)}" not in src
+        ok = recs[i] is not None and recs["1"] != recs["2"]
         c.check(ok, "R06-BRANCH", "EinsumDistributiveLawMapper.map_index_lambda",
                 f"rec_x{i}-from-x{i}", where,
                 f"rec_x{i} is not the recursion on hlo.x{i} (with the context passed on)")
@@ -192,19 +198,19 @@ def r_ctx(c):
     ci = m.cls(MAPPER)
     n = 0
     for mn, fd in sorted(ci.methods.items()):
-        params = [a.arg for a in fd.args.args]
-        if "ctx" not in params or not (mn.startswith("map_") or mn.startswith("_map_")):
+        if not (mn.startswith("map_") or mn.startswith("_map_")) or len(fd.args.args) != 3:
             continue
+        ctxp = fd.args.args[2].arg
         n += 1
 
-        def cl(nd):
+        def cl(nd, ctxp=ctxp):
             if isinstance(nd, ast.Call):
                 f = ast.unparse(nd.func)
                 if f.endswith("_wrap_einsum_from_ctx") and len(nd.args) == 2 \
-                        and ast.unparse(nd.args[1]) == "ctx":
+                        and ast.unparse(nd.args[1]) == ctxp:
                     return "WRAP"
                 if f == "self.rec" and len(nd.args) == 2 \
-                        and ast.unparse(nd.args[1]) == "ctx":
+                        and ast.unparse(nd.args[1]) == ctxp:
                     return "FWD"
             return None
         ps = P.walk(fd, cl)
@@ -224,7 +230,7 @@ def r_ctx(c):
             if isinstance(call, ast.Call) and ast.unparse(call.func) == "self.rec" \
                     and len(call.args) == 2:
                 a1 = ast.unparse(call.args[1])
-                c.check(a1 in ("None", "ctx"), "R06-CTX",
+                c.check(a1 in ("None", ctxp), "R06-CTX",
                         f"EinsumDistributiveLawMapper.{mn}", f"rec-ctx-arg:{m.frag(call, 40)}",
                         m.loc(ci.module, call),
                         f"recursion passes `{a1}` as context (neither the incoming "
@@ -247,8 +253,10 @@ def r_ctx(c):
                 "of the mapper's cache key: einsums differing only there share a "
                 "cache entry")
     gk = m.func(MAPPER + ".get_cache_key")
-    c.check(any(isinstance(r, ast.Return) and ast.unparse(r.value) == "(expr, ctx)"
-                for r in ast.walk(gk)), "R06-CTX", "EinsumDistributiveLawMapper.get_cache_key",
+    c.check(len(gk.args.args) == 3 and any(
+        isinstance(r, ast.Return)
+        and ast.unparse(r.value) == f"({gk.args.args[1].arg}, {gk.args.args[2].arg})"
+        for r in ast.walk(gk)), "R06-CTX", "EinsumDistributiveLawMapper.get_cache_key",
             "key-is-(expr,ctx)", m.loc(m.module_of(gk), gk),
             "the cache key no longer consists of the expression and the context")
 
@@ -266,25 +274,23 @@ def r_wrap(c):
     kws = {k.arg: k.value for k in call.keywords}
     for i, a in enumerate(call.args):
         kws[init[i]] = a
+    ep, cp = fd.args.args[0].arg, fd.args.args[1].arg
     for f in ("access_descriptors", "redn_axis_to_redn_descr", "tags", "axes"):
-        c.check(f in kws and ast.unparse(kws[f]) == f"ctx.{f}", "R06-WRAP",
+        c.check(f in kws and ast.unparse(kws[f]) == f"{cp}.{f}", "R06-WRAP",
                 "_wrap_einsum_from_ctx", f"Einsum.{f}", where,
                 f"the rebuilt einsum's {f} is `{ast.unparse(kws[f]) if f in kws else None}` "
                 f"instead of ctx.{f}")
     # operands: surrounding args at their recorded position, expr in the free slot
-    na = None
-    for st in ast.walk(fd):
-        if isinstance(st, ast.Assign) and ast.unparse(st.targets[0]) == ast.unparse(
-                kws.get("args", ast.Name(id="?"))):
-            na = st.value
-    src = ast.unparse(na) if na is not None else ""
-    c.check("ctx.surrounding_args.get(iarg, expr)" in src
-            and "range(len(ctx.access_descriptors))" in src, "R06-WRAP",
+    av = ast.unparse(kws.get("args", ast.Name(id="?")))
+    gen = (f"tuple(({cp}.surrounding_args.get($i, {ep}) "
+           f"for $i in range(len({cp}.access_descriptors))))")
+    c.check(has(fd, f"{av} = {gen}") or ("args" in kws and has(kws["args"], gen)),
+            "R06-WRAP",
             "_wrap_einsum_from_ctx", "Einsum.args", where,
             "operands are not rebuilt as surrounding_args.get(position, expr) over "
             "all operand positions")
-    c.check(any(isinstance(i, ast.If) and ast.unparse(i.test) == "ctx is None"
-                and any(isinstance(s, ast.Return) and ast.unparse(s.value) == "expr"
+    c.check(any(isinstance(i, ast.If) and ast.unparse(i.test) == f"{cp} is None"
+                and any(isinstance(s, ast.Return) and ast.unparse(s.value) == ep
                         for s in i.body) for i in ast.walk(fd)),
             "R06-WRAP", "_wrap_einsum_from_ctx", "no-context-is-identity", where,
             "without a context the expression is no longer returned unchanged")
@@ -300,21 +306,25 @@ def r_wrap(c):
     for i, a in enumerate(cc.args):
         ck[cinit[i]] = a
     wh = m.loc(m.module_of(me), cc)
+    ep, cp = me.args.args[1].arg, me.args.args[2].arg
+    dl = find(me, f"$d = self.how_to_distribute({ep})")
+    dv = dl[0]["$d"] if len(dl) == 1 else "?"
     for f in ("access_descriptors", "redn_axis_to_redn_descr", "tags", "axes"):
         v = ast.unparse(ck[f]) if f in ck else ""
-        c.check(v in (f"expr.{f}", f"constantdict(expr.{f})"), "R06-WRAP",
+        c.check(v in (f"{ep}.{f}", f"constantdict({ep}.{f})"), "R06-WRAP",
                 "EinsumDistributiveLawMapper.map_einsum", f"ctx.{f}", wh,
                 f"context field {f} is built from `{v}` instead of expr.{f}")
-    sa = ast.unparse(ck.get("surrounding_args", ast.Constant(value=None)))
-    c.check("enumerate(expr.args)" in sa and "iarg != distributive_law_descr.ioperand" in sa
-            and "iarg: arg" in sa, "R06-WRAP", "EinsumDistributiveLawMapper.map_einsum",
+    sa = ck.get("surrounding_args", ast.Constant(value=None))
+    comp = f"{{$i: $a for $i, $a in enumerate({ep}.args) if $i != {dv}.ioperand}}"
+    c.check(has(sa, comp), "R06-WRAP", "EinsumDistributiveLawMapper.map_einsum",
             "ctx.surrounding_args", wh,
             "surrounding_args is not {position: operand} for all operands except "
             "ioperand")
-    c.check("self.rec(expr.args[distributive_law_descr.ioperand], ctx)" in ast.unparse(me),
+    c.check(has(me, f"{cp} = $$_\nreturn _verify_is_array(self.rec({ep}.args[{dv}.ioperand], {cp}))")
+            or has(me, f"{cp} = $$_\nreturn self.rec({ep}.args[{dv}.ioperand], {cp})"),
             "R06-WRAP", "EinsumDistributiveLawMapper.map_einsum", "recurses-into-ioperand",
             wh, "the operand distributed over is not expr.args[ioperand]")
-    c.check(any(isinstance(i, ast.If) and ast.unparse(i.test) == "ctx is not None"
+    c.check(any(isinstance(i, ast.If) and ast.unparse(i.test) == f"{cp} is not None"
                 and any(isinstance(s, ast.Raise) for s in i.body) for i in ast.walk(me)),
             "R06-WRAP", "EinsumDistributiveLawMapper.map_einsum",
             "composed-distribution-raises", wh,
@@ -326,48 +336,68 @@ def r_squeeze(c):
     sq = m.func(RBE + "._squeeze_axes")
     me = m.func(RBE + ".map_einsum")
     where = m.loc(m.module_of(sq), sq)
-    s1 = ast.unparse(sq)
-    c.check("slice(None) if idim not in axes_to_squeeze else 0" in s1
-            and "range(expr.ndim)" in s1, "R06-SQUEEZE",
+    ep, ap = sq.args.args[1].arg, sq.args.args[2].arg
+    c.check(has(sq, f"{ep}[tuple((slice(None) if $i not in {ap} else 0 "
+                    f"for $i in range({ep}.ndim)))] if {ap} else {ep}")
+            or has(sq, f"{ep}[tuple((0 if $i in {ap} else slice(None) "
+                       f"for $i in range({ep}.ndim)))] if {ap} else {ep}"), "R06-SQUEEZE",
             "EinsumWithNoBroadcastsRewriter._squeeze_axes", "index-0-exactly-on-squeezed-axes",
             where, "the squeezed operand is not indexed with 0 exactly on the axes to "
             "squeeze and sliced fully elsewhere")
-    s2 = ast.unparse(me)
-    c.check("for idim, acc_descr in enumerate(acc_descrs) if idim not in axes_to_squeeze" in s2,
+    ep = me.args.args[1].arg
+    lp = [l for l in ast.walk(me) if isinstance(l, ast.For) and has(
+        l.iter, f"zip({ep}.args, {ep}.access_descriptors, strict=True)")]
+    env = {}
+    if len(lp) == 1 and isinstance(lp[0].target, ast.Tuple) and len(lp[0].target.elts) == 2:
+        env = {"$arg": lp[0].target.elts[0].id, "$descrs": lp[0].target.elts[1].id}
+    sqz = find(me, "$ax = tuple($axl)")
+    axv = sqz[0]["$ax"] if len(sqz) == 1 else "?"
+    axl = sqz[0]["$axl"] if len(sqz) == 1 else "?"
+    c.check(bool(env) and has(
+        me, f"$nd = tuple(($d for $i, $d in enumerate($descrs) if $i not in {axv}))", env),
             "R06-SQUEEZE", "EinsumWithNoBroadcastsRewriter.map_einsum",
             "drops-descriptors-of-squeezed-axes", m.loc(m.module_of(me), me),
             "the access descriptors kept are not exactly those of the axes that are "
             "not squeezed (sibling of _squeeze_axes' membership test)")
     # the axes squeezed are exactly those whose length differs from the einsum's
-    c.check("if not are_shape_components_equal(arg.shape[idim], descr_to_axis_len[acc_descr])" in s2
-            and "assert are_shape_components_equal(arg.shape[idim], 1)" in s2,
+    c.check(bool(env) and has(me, f"""
+{axl} = []
+for $i, $d in enumerate($descrs):
+    if not are_shape_components_equal($arg.shape[$i], $lens[$d]):
+        assert are_shape_components_equal($arg.shape[$i], 1)
+        {axl}.append($i)
+{axv} = tuple({axl})
+""", env) and has(me, f"$lens = {ep}._access_descr_to_axis_len()"),
             "R06-SQUEEZE", "EinsumWithNoBroadcastsRewriter.map_einsum",
             "squeezes-only-broadcast-unit-axes", m.loc(m.module_of(me), me),
             "an axis is squeezed without being a unit axis that differs from the "
             "einsum's axis length")
     # args and descriptors are appended in step
-    loops = [l for l in ast.walk(me) if isinstance(l, ast.For)
-             and "expr.args" in ast.unparse(l.iter)]
     ok = False
-    for l in loops:
+    fin = find(me, f"return {ep}.replace_if_different(args=tuple($na), "
+                   "access_descriptors=tuple($nd))")
+    for l in lp:
         direct = [ast.unparse(s) for s in l.body]
-        ok = any(s.startswith("new_args.append(") for s in direct) and any(
-            s.startswith("new_access_descriptors.append(") for s in direct) \
-            and "zip(expr.args, expr.access_descriptors" in ast.unparse(l.iter)
+        ok = len(fin) == 1 and any(s.startswith(fin[0]["$na"] + ".append(") for s in direct) \
+            and any(s.startswith(fin[0]["$nd"] + ".append(") for s in direct)
     c.check(ok, "R06-SQUEEZE", "EinsumWithNoBroadcastsRewriter.map_einsum",
             "args-and-descriptors-in-step", m.loc(m.module_of(me), me),
             "operands and access descriptors are no longer rebuilt in the same loop, "
             "unconditionally and in the same order")
     # rec: result squeezed after the un-squeezed recursion; key includes the axes
     rec = m.func(RBE + ".rec")
-    s3 = ast.unparse(rec)
-    c.check("Mapper.rec(self, expr, ())" in s3 and "self._squeeze_axes(" in s3,
+    ep, ap = rec.args.args[1].arg, rec.args.args[2].arg
+    c.check(has(rec, f"$r = Mapper.rec(self, {ep}, ())")
+            and (has(rec, f"self._squeeze_axes(_verify_is_array($r), {ap})")
+                 or has(rec, f"self._squeeze_axes($r, {ap})")),
             "R06-SQUEEZE", "EinsumWithNoBroadcastsRewriter.rec", "squeeze-after-rewrite",
             m.loc(m.module_of(rec), rec),
             "the node is no longer rewritten without squeezing and squeezed afterwards")
     gk = m.func(RBE + ".get_cache_key")
-    c.check(any(isinstance(r, ast.Return) and ast.unparse(r.value) == "(expr, axes_to_squeeze)"
-                for r in ast.walk(gk)), "R06-SQUEEZE",
+    c.check(len(gk.args.args) == 3 and any(
+        isinstance(r, ast.Return)
+        and ast.unparse(r.value) == f"({gk.args.args[1].arg}, {gk.args.args[2].arg})"
+        for r in ast.walk(gk)), "R06-SQUEEZE",
             "EinsumWithNoBroadcastsRewriter.get_cache_key", "key-includes-axes",
             m.loc(m.module_of(gk), gk),
             "the cache key does not include axes_to_squeeze: the same array reached "
